@@ -9,8 +9,10 @@ RULE = ("for each linear generator type: the native step, value-numbered on a sy
         "(Berlekamp-Massey on Krylov sequences of the extracted matrix) must have degree n and be primitive: x^(2^n)=x and "
         "x^((2^n-1)/q)!=1 for every certified prime q | 2^n-1 (R3); the state map of the type's other word method (next_u64 of a 32-bit "
         "engine, next_u32 of a 64-bit engine), evaluated with everything inlined, must be the matrix T^2 resp. T (R4), and the state map of fill_bytes on a destination of each "
-        "constant length n in the tier's range must be T^k for the k native steps the word table of C05 prescribes for n (R5), so that every "
-        "stepping operation moves along the one cycle")
+        "constant length n in the tier's range must be T^k for the k native steps the word table of C05 prescribes for n (R5); every other "
+        "method of the type that takes &mut self must leave the state alone or change it by a linear bijection that commutes with T, "
+        "i.e. by a power of T, and no field is public and no method hands out &mut into the state (R6), so that every stepping "
+        "operation moves along the one cycle")
 
 TRUSTED = ["rustc nightly MIR", "primitive table (vf/prims.py)", "integer arithmetic of CPython",
            "factor table of 2^512-1 (product re-verified, primality by Pratt certificates re-verified each run)"]
@@ -173,6 +175,11 @@ def run(chk, tier):
             fills += check_fill_power(chk, crate, e, ident, ref, tier)
         except Anchor as ex:
             chk.ob("R5", "%s::fill_bytes|state map" % ident, False, "not established: %s" % ex)
+        try:
+            from .c08 import check_mutators
+            check_mutators(chk, crate, e["g"], rule="R6")
+        except (Anchor, Unsupported, SymbolicLoop) as ex:
+            chk.ob("R6", "%s|other state-writing methods" % ident, False, "not established: %s" % ex)
         chk.ob("R3", "%s|characteristic polynomial primitive" % ident, prim, why, where=where,
                sample={"type": ident, "n": n, "rank": rk, "chi_weight": bin(chi).count("1"), "chi_low64": hex(chi & (2**64 - 1)), "verdict": why})
     chk.extra["distinct_engines"] = len(engines)
